@@ -1,6 +1,7 @@
 \* reference configuration for the Pyroscope selector (tools/props/c17.py generates the ones it runs);
 \* "INVARIANTS MechEqDef" is the property itself
-SPECIFICATION Spec
+INIT MCInit
+NEXT MCNext
 CONSTANTS
   KV = {"n1"}
   GL = {"g1"}
